@@ -1,8 +1,10 @@
 package world
 
 import (
+	"encoding/json"
 	"fmt"
 	"math/rand"
+	"strings"
 )
 
 // Attack documents: served by attacker hosts, they present other hosts' identifiers in every way
@@ -51,7 +53,7 @@ func AddAttacks(g *Generated, r *rand.Rand, attackers []string) *Attack {
 		a.Victims[v.ID] = true
 		k++
 		base := fmt.Sprintf("https://%s/evil/%d-%d", ah, labelCounterNext(), k)
-		switch r.Intn(23) {
+		switch r.Intn(27) {
 		case 0: // a note of the attacker that embeds a forged copy as its parent and as its author
 			g.SetDoc(base, map[string]any{"id": base, "type": "Note", "name": "EVILNOTE", "content": "<p>own</p>", "inReplyTo": forgedCopy(v, ah, k), "attributedTo": forgedCopy(victims[r.Intn(len(victims))], ah, k)})
 			a.Forgeries += 2
@@ -152,6 +154,30 @@ func AddAttacks(g *Generated, r *rand.Rand, attackers []string) *Attack {
 			g.SetDoc(coll, map[string]any{"id": coll, "type": "OrderedCollection", "totalItems": 2.0, "first": ref})
 			a.Entries = append(a.Entries, coll)
 			a.Forgeries += 2
+		case 23, 24: // a post on the victim's host whose comment section is a collection on the attacker's host: what is embedded there is judged by where it was served
+			note := fmt.Sprintf("https://%s/posts/outsourced-comments-%d", v.Host, labelCounterNext())
+			coll := base + "/comments"
+			f1, f2 := forgedCopy(v, ah, k), forgedCopy(victims[r.Intn(len(victims))], ah, k)
+			f1["inReplyTo"], f2["inReplyTo"] = note, note
+			f1["type"], f2["type"] = "Note", "Note"
+			page := map[string]any{"type": "OrderedCollectionPage", "orderedItems": []any{f1, f2}}
+			if r.Intn(2) == 0 {
+				g.SetDoc(coll, map[string]any{"id": coll, "type": "OrderedCollection", "totalItems": 2.0, "first": page})
+			} else {
+				g.SetDoc(coll, map[string]any{"id": coll, "type": "OrderedCollection", "totalItems": 2.0, "orderedItems": []any{f1, f2}})
+			}
+			g.SetDoc(note, map[string]any{"id": note, "type": "Note", "name": "OUTSOURCED", "content": "<p>x</p>", "published": "2024-01-01T00:00:00Z", "replies": coll})
+			a.Entries = append(a.Entries, note)
+			a.Forgeries += 2
+		case 25, 26: // a forged copy followed by more than a megabyte of padding (or cut off inside the padding): whatever the client makes of
+			// such a response, nothing of it may turn up under another address later
+			body, _ := json.Marshal(forgedCopy(v, ah, k))
+			pad := strings.Repeat(" ", 1<<20+4096)
+			if r.Intn(2) == 0 {
+				pad = strings.Repeat("\n ", 400000) + "garbage"
+			}
+			g.SetRaw(base, []byte("HTTP/1.1 200 OK\r\nContent-Type: application/activity+json\r\n\r\n"+string(body)+pad))
+			a.Forgeries++
 		case 8: // ping-pong: the attacker's document names the victim's id, the victim's real document is fine
 			g.SetDoc(base, map[string]any{"id": v.ID, "type": "Note", "name": v.Label + "X ZZFORGERY by " + ah, "content": "<p>forged</p>", "replies": map[string]any{"id": v.ID + "/fake-replies", "type": "Collection", "items": []any{forgedCopy(v, ah, k)}}})
 			a.Forgeries += 2
